@@ -55,8 +55,22 @@ def _ev(e, p):
     if isinstance(e, ast.Attribute):
         return p.env.get(_key(e, p), UNK)
     if isinstance(e, ast.Dict) and all(isinstance(k, ast.Constant) for k in e.keys):
-        vs = {k.value: _ev(v, p) for k, v in zip(e.keys, e.values)}
+        vs = {}
+        for k, v in zip(e.keys, e.values):
+            x = _ev(v, p)
+            if x is UNK and isinstance(v, ast.Attribute):
+                x = Ref(_key(v, p))          # an object reached through an attribute path: known by its path only
+            vs[k.value] = x
         return UNK if any(v is UNK for v in vs.values()) else vs
+    if isinstance(e, ast.Call) and isinstance(e.func, ast.Attribute) and e.func.attr == 'get' and len(e.args) in (1, 2) and not e.keywords:
+        d_ = _ev(e.func.value, p)
+        k_ = _ev(e.args[0], p)
+        if isinstance(d_, dict) and k_ is not UNK:
+            try:
+                return d_.get(k_, _ev(e.args[1], p) if len(e.args) == 2 else None)
+            except TypeError:
+                return UNK
+        return UNK
     if isinstance(e, ast.Subscript):
         b, i = _ev(e.value, p), _ev(e.slice, p)
         if isinstance(b, (dict, tuple)) and i is not UNK:
